@@ -428,6 +428,27 @@ func main() {
 			jobs = append(jobs, job{scenes[si], n, scenes[si].s.BoundingBox(), false}, job{scenes[si], n, scenes[si].s.BoundingBox(), true})
 		}
 	}
+	// the same kind of scene at very small and very large absolute size (nothing may depend on an absolute length)
+	for _, k := range []float64{1e-3, 1e-5, 1e4} {
+		for _, si := range []int{0, 3, 5, 12} {
+			sc := scene{fmt.Sprintf("%s scaled by %g", scenes[si].name, k), sdf.ScaleUniform3D(scenes[si].s, k)}
+			for _, n := range []int{9, 16, 40} {
+				bb := cube(6*k, 8*k, 5*k)
+				jobs = append(jobs, job{sc, n, bb, false}, job{sc, n, bb, true})
+			}
+		}
+	}
+	// scenes (and their boxes) moved far from the origin: the three lattice steps are rounded separately there
+	for _, off := range []v3.Vec{{X: 10, Y: -7.1, Z: 3.3}, {X: -1e3, Y: 0.37, Z: 1e4}} {
+		for _, si := range []int{0, 3, 6, 11, 13} {
+			sc := scene{fmt.Sprintf("%s moved to %v", scenes[si].name, off), tr3(scenes[si].s, off.X, off.Y, off.Z)}
+			for _, n := range []int{7, 20, 50} {
+				bb := cube(6, 8, 5)
+				bb.Min, bb.Max = bb.Min.Add(off), bb.Max.Add(off)
+				jobs = append(jobs, job{sc, n, bb, false}, job{sc, n, bb, true})
+			}
+		}
+	}
 	done := c.ParFor(len(jobs), func(i int) {
 		j := jobs[i]
 		var r render.Render3 = render.NewMarchingCubesUniform(j.n)
